@@ -147,12 +147,18 @@ def write_nc4src(ns, path, strings=False):
         shape = tuple({'t': ns['m'], 'x': ns['n']}[d] for d in v['dims'])
         kw = {'fill_value': -32767} if v['fill'] else {}
         nv = ds.createVariable(v['name'], 'i2', tuple(v['dims']), **kw)
-        nv.scale_factor = np.float32(v['scale'])
-        nv.add_offset = np.float32(v['offset'])
+        # packed with both attributes, with the offset only, or with the
+        # scale only
+        style = v['seed'] % 5
+        sc = 1.0 if style == 0 else np.float64(np.float32(v['scale']))
+        of = 0.0 if style == 1 else np.float64(np.float32(v['offset']))
+        if style != 0:
+            nv.scale_factor = np.float32(v['scale'])
+        if style != 1:
+            nv.add_offset = np.float32(v['offset'])
         nv.units = 'K'
         packed = rng.integers(-2000, 2000, shape)
-        vals = packed * np.float64(np.float32(v['scale'])) + np.float64(
-            np.float32(v['offset']))
+        vals = packed * sc + of
         if v['mask'] == 'some':
             mk = rng.random(shape) < 0.3
             if not mk.any():
